@@ -260,6 +260,8 @@ def build_case(ctx, rng, d, flavour, forced=None):
     script.ctu = ([b for _k, b in ctu_kl], ctu_code)
 
     enabled = severitygate.effective(enable.split(',')) if enable else set()
+    if enable == 'all':
+        enabled = set(enabled) | {'debug'}     # --enable=all switches every severity on, debug included
     outcomes = {n: AG.model_invocation(script.files[n][0], script.files[n][1], n, enabled) for n in names}
     ctu_out = AG.model_invocation(script.ctu[0], script.ctu[1], '', enabled)
 
@@ -281,6 +283,7 @@ def build_case(ctx, rng, d, flavour, forced=None):
                 supp_opts.append('%s:%s:%d' % (f.id, p[0], p[1]))
         if rng.random() < 0.3:
             supp_opts.append('scr-nomatch%d' % rng.randint(1, 9))
+    supp_opts = sorted(set(supp_opts))     # a repeated --suppress is a command line error
     if inline:
         for n in names:
             for f in outcomes[n].findings:
@@ -329,6 +332,10 @@ def run_case(ctx, c, label):
 
     if a.res.timed_out:
         ctx.inconclusive('watchdog fired on %s' % label)
+        return None
+    if b'cppcheck: error:' in a.res.out and not cases.crashed(a.res):
+        ctx.count('skipped', 'command-line-rejected')
+        ctx.sample({'rejected': a.res.otext()[:200]})
         return None
     if cases.crashed(a.res):
         viol('crash', 'cppcheck crashed/aborted (rc=%s) while relaying addon output\n%s' % (a.rc, a.res.etext()[-1200:]))
